@@ -547,3 +547,32 @@ contract('gnpy.topology.spectrum_assignment.compute_n_m',
          use_at_calls=False, modifies=[], max_paths=3000,
          hints=['rq.N[0] - rq.M[0] - oms_list[0].spectrum_bitmap.n_min', 'rq.N[1] - rq.M[1] - oms_list[0].spectrum_bitmap.n_min',
                 'rq.N[0] - oms_list[0].spectrum_bitmap.n_min', 'rq.N[1] - oms_list[0].spectrum_bitmap.n_min'])
+
+# ---- the same request through pth_assign_spectrum: accepted => both entries verbatim, both ranges were free, occupancy = old + both
+# ranges; blocked => nothing changes
+RQP2 = obj('<ns>', N=lst(integer(), integer()), M=lst(integer(), integer()), request_id=string(), path_bandwidth=real(),
+           spacing=real(), bit_rate=real())
+_pth = lst(obj('Fiber', oms_id=const(0), uid=string()))
+_R0 = 'INRANGE({o}, old(rqs[0].N[0]), old(rqs[0].M[0]), t)'
+_R1 = 'INRANGE({o}, old(rqs[0].N[1]), old(rqs[0].M[1]), t)'
+contract('gnpy.topology.spectrum_assignment.pth_assign_spectrum',
+         name='gnpy.topology.spectrum_assignment.pth_assign_spectrum[one request with two fixed (N, M) entries, path over OMS [0]]', props=['C14'],
+         params={'pths': lst(_pth), 'rqs': lst(RQP2), 'oms_list': lst(OMSB('a'), OMSB('b')), 'rpths': lst(lst()),
+                 'policy': const('first_fit')}, spec=SPEC_AGG,
+         inline_callees=['gnpy.core.utils.order_slots', 'gnpy.core.utils.restore_order'],
+         let={'rq': 'rqs[0]', 'A': _A, 'blocked': "hasattr(rqs[0], 'blocking_reason')"},
+         requires=_REQ2 + [('guard_a', f'GB({_A})'), ('guard_consistent', f'CONSIST({_A})'),
+                           ('demand', 'rqs[0].path_bandwidth > 0 and rqs[0].spacing > 0 and rqs[0].bit_rate > 0'),
+                           ('fixed_m_positive', 'rqs[0].M[0] > 0 and rqs[0].M[1] > 0'),
+                           ('fixed_n_on_grid', f'{_A}.n_min <= rqs[0].N[0] and rqs[0].N[0] <= {_A}.n_max and {_A}.n_min <= rqs[0].N[1] and rqs[0].N[1] <= {_A}.n_max')],
+         ensures=[('blocked_has_no_labels', 'implies(blocked, rq.N is None and rq.M is None)'),
+                  ('accepted_keeps_both_entries_verbatim', 'implies(not blocked, len(rq.N) == 2 and len(rq.M) == 2 and rq.N[0] == old(rqs[0].N[0]) and '
+                   'rq.N[1] == old(rqs[0].N[1]) and rq.M[0] == old(rqs[0].M[0]) and rq.M[1] == old(rqs[0].M[1]))'),
+                  ('enough_slots', 'implies(not blocked, (rq.M[0] + rq.M[1]) * 0.0125e12 >= rq.spacing * (rq.path_bandwidth / rq.bit_rate))'),
+                  ('both_were_free', 'implies(not blocked, forall(lambda t: implies(' + _R0.format(o=_A) + ' or ' + _R1.format(o=_A) + f', old({_A}.bitmap)[t] == BitmapValue.FREE), len({_A}.bitmap)))'),
+                  ('occupancy_is_old_plus_both_ranges', 'implies(not blocked, forall(lambda t: ' + f'{_A}.bitmap[t] == (BitmapValue.OCCUPIED if (' + _R0.format(o=_A) + ' or ' + _R1.format(o=_A) + f') else old({_A}.bitmap)[t]), len({_A}.bitmap)))'),
+                  ('blocked_changes_nothing', f'implies(blocked, forall(lambda t: {_A}.bitmap[t] == old({_A}.bitmap)[t], len({_A}.bitmap)))')],
+         modifies=['rqs[0].N', 'rqs[0].M', 'rqs[0].blocking_reason', 'oms_list[0].spectrum_bitmap.bitmap[*]', 'oms_list[0].service_list[*]', 'oms_list[0].nb_channels'],
+         use_at_calls=False, allow_other_exc=(), max_paths=3000,
+         hints=['rqs[0].N[0] - rqs[0].M[0] - oms_list[0].spectrum_bitmap.n_min', 'rqs[0].N[1] - rqs[0].M[1] - oms_list[0].spectrum_bitmap.n_min',
+                'rqs[0].N[0] - oms_list[0].spectrum_bitmap.n_min', 'rqs[0].N[1] - oms_list[0].spectrum_bitmap.n_min'])
